@@ -898,7 +898,7 @@ def check_signature_subject(prog: Program, rep: Report):
     insp = prog.module("typelib.py.inspection")
     if "cached_signature" in insp.assigns:
         cs = P.module_term(prog, insp, "cached_signature")
-        rep.check(T.is_call_to(cs, "functools.cache") and cs[2] == (("ref", "typelib.py.inspection.signature"),), "R10.5", "typelib.py.inspection.cached_signature", sig.loc, "cached_signature memoises signature() itself, keyed by the callable", "cached_signature is not compat.cache(signature)", detail="cached")
+        rep.check(cs[0] == "call" and (T.refname(cs[1]) in ("functools.cache",) or "typelib.py.inspection.cached_signature" in prog.memoised_functions()) and cs[2] == (("ref", "typelib.py.inspection.signature"),), "R10.5", "typelib.py.inspection.cached_signature", sig.loc, "cached_signature memoises signature() itself, keyed by the callable", "cached_signature is not compat.cache(signature)", detail="cached")
     elif "cached_signature" in insp.functions:
         cf = insp.functions["cached_signature"]
         o = ("param", cf.params[0])
